@@ -281,6 +281,7 @@ func genC02(tier string, seed uint64) []genOut {
 	out = append(out, genAdaptiveMerge("C02", seed, na, true)...)
 	out = append(out, genCopyPath("C02", seed, na)...)
 	out = append(out, genGhostFields("C02", seed, 4*na)...)
+	out = append(out, genUpsertMerge("C02", seed, 10*na)...)
 	out = append(out, genSparseDV("C02", seed, na, true, true)...)
 	return out
 }
@@ -323,6 +324,7 @@ func genC03(tier string, seed uint64) []genOut {
 	out = append(out, genAdaptiveMerge("C03", seed, na, false)...)
 	out = append(out, genCopyPath("C03", seed, na)...)
 	out = append(out, genGhostFields("C03", seed, 6*na)...)
+	out = append(out, genUpsertMerge("C03", seed, 10*na)...)
 	return out
 }
 
@@ -350,6 +352,31 @@ func genC04(tier string, seed uint64) []genOut {
 		}
 		out = append(out, genOut{cb.c, cb.n[sg] > 0, class})
 	}
+	// merges whose deletions move cardinalities across chunk-size buckets, read after loading
+	na := 2
+	if tier == "thorough" {
+		na = 12
+	}
+	for _, g := range genAdaptiveMerge("C04", seed, na, false) {
+		cb := &caseBuilder{c: g.c, r: NewRng(seed, "C04-adm-load", 0)}
+		final := len(g.c.Segs) - 1
+		cb.n = make([]int, len(g.c.Segs))
+		cb.docs = make([][]Doc, len(g.c.Segs))
+		var qs []Query
+		for _, backing := range []string{"mem", "file"} {
+			ld := cb.addLoad(final, backing)
+			for _, q := range g.c.Queries {
+				if len(q) > 1 && q[1] == itoa(final) && q[0] != "docnums" {
+					qq := append(Query(nil), q...)
+					qq[1] = itoa(ld)
+					qs = append(qs, qq)
+				}
+			}
+		}
+		g.c.Queries = append(g.c.Queries, qs...)
+		out = append(out, g)
+	}
+	out = append(out, genUpsertMerge("C04", seed, 10*na)...)
 	return out
 }
 
@@ -792,6 +819,19 @@ func genC13(tier string, seed uint64) []genOut {
 					}
 					cb.q("dv", itoa(sg), hxList(fs), intList(order))
 				}
+			case 2:
+				// DocsMatchingTerms keeps one dictionary and one postings list across the terms of a call
+				fs := append(cb.queryFields(), []byte("nosuch"))
+				ts := cb.queryTerms()
+				q := []string{"match", itoa(sg)}
+				for x := r.Range(2, 6); x > 0; x-- {
+					f := fs[r.Intn(len(fs))]
+					if r.Chance(1, 3) {
+						f = fs[0]
+					}
+					q = append(q, hx(f)+":"+hx(ts[r.Intn(len(ts))]))
+				}
+				cb.q(q...)
 			default:
 				cb.iterQueries(sg, 2)
 			}
@@ -902,6 +942,11 @@ func genC18(tier string, seed uint64) []genOut {
 		}
 		out = append(out, genOut{cb.c, unknown && cb.n[sg] > 0, class})
 	}
+	nu := 40
+	if tier == "thorough" {
+		nu = 400
+	}
+	out = append(out, genUpsertMerge("C18", seed, nu)...)
 	return out
 }
 
@@ -1416,6 +1461,116 @@ func genSparseDV(prop string, seed uint64, count int, withMerge, withRebuild boo
 			}
 		}
 		out = append(out, genOut{cb.c, true, "sparse-dv"})
+	}
+	return out
+}
+
+// upsertMerge: the update pattern DocsMatchingTerms exists for.  Two to four segments whose
+// documents take their `_id` (a unique term without locations, frequency 1) from a small pool, so
+// ids collide across segments; for every id present more than once all occurrences but one are
+// deleted (the older or the newer one survives, at random); merged; then the ids are looked up.
+// This produces 1-hit candidates whose other occurrences are all deleted, in earlier and in later
+// input segments, and survivors at merged document number 0.
+func genUpsertMerge(prop string, seed uint64, count int) []genOut {
+	var out []genOut
+	for i := 0; i < count; i++ {
+		r := NewRng(seed, prop+"-upsert", uint64(i))
+		cb := newCaseBuilder(caseID(prop+"up", seed, i), r)
+		body := []byte("body")
+		cb.u.fields = [][]byte{[]byte("_id"), body}
+		npool := r.Range(2, 6)
+		k := r.Range(2, 4)
+		type occ struct{ seg, doc int }
+		where := map[int][]occ{}
+		var segs []int
+		for j := 0; j < k; j++ {
+			n := r.Range(1, 4)
+			perm := permute(r, npool)
+			if n > npool {
+				n = npool
+			}
+			docs := make([]Doc, n)
+			for d := 0; d < n; d++ {
+				id := []byte(fmt.Sprintf("id%d", perm[d]))
+				doc := Doc{{Name: []byte("_id"), Length: 1, Store: true, Value: id, Terms: []TermOcc{{Term: id, Freq: 1}}}}
+				if r.Chance(2, 3) {
+					// shared body terms, without locations (1-hit material) or with
+					t := TermOcc{Term: []byte([]string{"shared", "delta", "x"}[r.Intn(3)]), Freq: 1}
+					if r.Chance(1, 3) {
+						t.Locs = []Loc{{Pos: 1, Start: 0, End: 3}}
+					}
+					if r.Chance(1, 4) {
+						t.Freq = 2
+					}
+					doc = append(doc, FieldInst{Name: body, Length: t.Freq, Terms: []TermOcc{t}})
+				}
+				docs[d] = doc
+				where[perm[d]] = append(where[perm[d]], occ{j, d})
+			}
+			m, api := blockMode(r)
+			segs = append(segs, cb.addBuild(docs, m, api))
+		}
+		drops := make([][]uint32, k)
+		for _, occs := range where {
+			if len(occs) < 2 {
+				if r.Chance(1, 6) {
+					drops[occs[0].seg] = append(drops[occs[0].seg], uint32(occs[0].doc))
+				}
+				continue
+			}
+			keep := r.Intn(len(occs))
+			if r.Chance(1, 8) {
+				keep = -1 // the document is deleted altogether
+			}
+			for x, o := range occs {
+				if x != keep {
+					drops[o.seg] = append(drops[o.seg], uint32(o.doc))
+				}
+			}
+		}
+		var ins []MergeIn
+		for j := 0; j < k; j++ {
+			in := MergeIn{Seg: segs[j], Drops: drops[j]}
+			if in.Drops == nil {
+				if r.Chance(1, 2) {
+					in.Nil = true
+				} else {
+					in.Drops = []uint32{}
+				}
+			} else {
+				sort.Slice(in.Drops, func(a, b int) bool { return in.Drops[a] < in.Drops[b] })
+			}
+			ins = append(ins, in)
+		}
+		m, api := mergeMode(r)
+		final := cb.addMerge(ins, m, api, bufSize(r))
+		mseg := final
+		if r.Chance(1, 3) {
+			final = cb.addLoad(final, []string{"mem", "file"}[r.Intn(2)])
+		}
+		fs := itoa(final)
+		var all []string
+		for p := 0; p < npool; p++ {
+			pair := hx([]byte("_id")) + ":" + hx([]byte(fmt.Sprintf("id%d", p)))
+			cb.q("match", fs, pair)
+			all = append(all, pair)
+		}
+		for _, t := range []string{"shared", "delta", "x"} {
+			cb.q("match", fs, hx(body)+":"+hx([]byte(t)))
+			cb.q("iter", fs, hx(body), hx([]byte(t)), "~", "111", "w")
+			cb.q("contains", fs, hx(body), hx([]byte(t)))
+		}
+		cb.q(append([]string{"match", fs}, all...)...)
+		cb.q("match", fs, all[0], hx([]byte("nosuch"))+":78", all[len(all)-1], hx(body)+":"+hx([]byte("shared")), hx([]byte("nosuch"))+":79", hx(body)+":"+hx([]byte("delta")))
+		cb.q("dict", fs, hx([]byte("_id")), "~", "~", "any")
+		cb.q("dict", fs, hx(body), "~", "~", "any")
+		cb.q("stats", fs, hx(body))
+		cb.q("count", fs)
+		cb.q("docnums", itoa(mseg))
+		for d := 0; d < cb.n[final]; d++ {
+			cb.q("stored", fs, itoa(d), "-1")
+		}
+		out = append(out, genOut{cb.c, cb.n[final] > 0, "upsert-merge"})
 	}
 	return out
 }
